@@ -15,6 +15,7 @@ out = {
   "summary": meta.get("summary"),
   "needs_to_manifest": meta.get("needs_to_manifest"),
   "files": meta.get("files"),
+  "features": meta.get("features"),
   "origin": "fresh sub-agent given only the property text and a scratch worktree",
   "confirmed": "tools/confirm_seed.sh: demo passes on the clean tree, fails with the patch; `cargo test --offline --lib` unchanged (54 passed + the known expand_env_vars_tests failure); color_control passes",
   "demonstration": f"place demo.rs as tests/demo_{m}.rs in a scratch worktree of /repo and run `cargo test --offline --test demo_{m}`",
